@@ -27,7 +27,7 @@ type c03Hist struct {
 
 func init() {
 	register(&Prop{ID: "C03", Run: c03Run,
-		Rule: "histories of AddValue / AddValueAt / AddContainer / AddList / Remove / RemoveAt / ListBuilder.Set / Append / Clear / MustSet(in range) / Walk(CompactFn) over path-safe keys with index groups (nested up to 2), aimed at existing positions 2/3 of the time, from empty / generated start documents; every step is filtered by the domain predicate (no index step lands on an existing non-list, non-null node; remove paths end in a key; a write makes no key step into an existing list, a RemoveAt may: the path is then absent and nothing may change). One RemoveAt in three aims at an existing path below a list item with one index group re-spelled as a digit-only member name (`a.l[1].b` -> `a.l.1.b`: another path on the plain tree, absent unless a container has a member of that name), and after every step Lookup is compared with the lookup on the plain tree at up to 3 paths through list items and up to 6 such re-spellings. One history in four draws its keys from a second path-safe pool (vr_util.go: case twins, letters outside ASCII in 2/3/4 UTF-8 bytes, digit-only and sign-prefixed names, prefix-related siblings, names with inner / leading / trailing blanks and with characters that are syntax elsewhere: '/', '~', '#', '{', '=', ':'), every third history draws one index in six from 9..12 (two-digit index groups, lists padded to that length), one in four starts from a document rich in empty-but-present values (empty containers, empty lists, [[]], [{}], lists of nulls, the empty string, below containers at every depth) and compacts three times as often; after every Walk(CompactFn) the document is compared with the compaction of the previous state computed on the plain tree (exactly the empty keyed containers go, cascading upwards; lists, their items and every leaf stay). Non-trivial: at least 3 steps changed the document; distinct by case hash. deep cases (harness/c03_deep.go; a dozen per quick run, direct predicates only): a chain of 40..2500 nested composites — on and around 255/256, 999..1003, 1024, 2048 and three random depths; containers, or every n-th level a list — built by nested AddContainer / AddList / Append calls or by ONE AddValueAt per name with a path of that many components, whose innermost composite holds one value as ONE node object under 2-3 names (and now and then once more further up) next to a value of its own; AsMap / AsSlice of the root and of inner levels (among them those from which the shared value is 999..1002 levels down), the walk through Children()/Items() and Lookup of the deep paths are compared with the plain tree built alongside, again after removing one name and adding a leaf at the bottom. heap-hist cases (harness/heap_builder.go): the start document is built by one of seven routes (FromMap, AddValue/ListNode with own / shared / mixed nil leaves, the AddContainer/AddList/Set/Append API, shared subtrees, containers with an add-and-remove history), its real object graph is encoded as an explicit heap by pointer identity, and a history of 3-14 (thorough: up to 30) builder calls is run that KEEPS the nodes returned by AddContainer / AddList / Child / Lookup as handles and later writes through them (half of the calls), mixed with root-level path writes aimed at the handles' positions (overwrite / remove / re-create), list Set / MustSet / Append / Clear, Walk(CompactFn), and now and then attaches a node the history already holds (sharing; never closing a cycle); after every call the document, the sharing map of its graph, the liveness of every handle, the returned node and the set of existing objects whose content changed are compared with the heap model (lean/YtkModel/HeapBuilder.lean). Such a case is non-trivial when at least one write went through a kept handle and at least 2 calls changed the document.",
+		Rule: "histories of AddValue / AddValueAt / AddContainer / AddList / Remove / RemoveAt / ListBuilder.Set / Append / Clear / MustSet(in range) / Walk(CompactFn) over path-safe keys with index groups (nested up to 2), aimed at existing positions 2/3 of the time, from empty / generated start documents; every step is filtered by the domain predicate (no index step lands on an existing non-list, non-null node; remove paths end in a key; a write makes no key step into an existing list, a RemoveAt may: the path is then absent and nothing may change). One RemoveAt in three aims at an existing path below a list item with one index group re-spelled as a digit-only member name (`a.l[1].b` -> `a.l.1.b`: another path on the plain tree, absent unless a container has a member of that name), and after every step Lookup is compared with the lookup on the plain tree at up to 3 paths through list items and up to 6 such re-spellings. One history in four draws its keys from a second path-safe pool (vr_util.go: case twins, letters outside ASCII in 2/3/4 UTF-8 bytes, digit-only and sign-prefixed names, prefix-related siblings, names with inner / leading / trailing blanks and with characters that are syntax elsewhere: '/', '~', '#', '{', '=', ':'), every third history draws one index in six from 9..12 (two-digit index groups, lists padded to that length), one in four starts from a document rich in empty-but-present values (empty containers, empty lists, [[]], [{}], lists of nulls, the empty string, below containers at every depth) and compacts three times as often; after every Walk(CompactFn) the document is compared with the compaction of the previous state computed on the plain tree (exactly the empty keyed containers go, cascading upwards; lists, their items and every leaf stay). While a history runs the evaluation holds on to up to 16 composite nodes of the document (looked up at their positions in the start document and after the step that created them, the way a caller keeps what AddList / AddContainer / Lookup returned); a held node is dropped when a step writes, adds or removes at or above its position (Set on the item it sits in, Clear of a list around it, any compaction), otherwise Lookup at its position must still return that very node after the step — a write below it (a member, a slot created by padding past the end) goes into it — and a list operation on a path for which a ListBuilder is held goes through the held one, its effect being read from the document as always. Non-trivial: at least 3 steps changed the document; distinct by case hash. deep cases (harness/c03_deep.go; a dozen per quick run, direct predicates only): a chain of 40..2500 nested composites — on and around 255/256, 999..1003, 1024, 2048 and three random depths; containers, or every n-th level a list — built by nested AddContainer / AddList / Append calls or by ONE AddValueAt per name with a path of that many components, whose innermost composite holds one value as ONE node object under 2-3 names (and now and then once more further up) next to a value of its own; AsMap / AsSlice of the root and of inner levels (among them those from which the shared value is 999..1002 levels down), the walk through Children()/Items() and Lookup of the deep paths are compared with the plain tree built alongside, again after removing one name and adding a leaf at the bottom. heap-hist cases (harness/heap_builder.go): the start document is built by one of seven routes (FromMap, AddValue/ListNode with own / shared / mixed nil leaves, the AddContainer/AddList/Set/Append API, shared subtrees, containers with an add-and-remove history), its real object graph is encoded as an explicit heap by pointer identity, and a history of 3-14 (thorough: up to 30) builder calls is run that KEEPS the nodes returned by AddContainer / AddList / Child / Lookup as handles and later writes through them (half of the calls), mixed with root-level path writes aimed at the handles' positions (overwrite / remove / re-create), list Set / MustSet / Append / Clear, Walk(CompactFn), and now and then attaches a node the history already holds (sharing; never closing a cycle); after every call the document, the sharing map of its graph, the liveness of every handle, the returned node and the set of existing objects whose content changed are compared with the heap model (lean/YtkModel/HeapBuilder.lean). Such a case is non-trivial when at least one write went through a kept handle and at least 2 calls changed the document.",
 		Assumptions: []string{"remove operations range over paths whose last step is a key (DESIGN.md section 2)",
 			"a null pad at a list slot counts as absent for a following index step (it is replaced by a list)",
 			"heap-hist tie: a node object is identified by the address its pointer holds, a children map by the address of its header (Children() returns the map itself); item slices are observed through Items(); allocation order is not observable, so new objects are numbered by first visit (preorder, key order; the root's graph, then every detached handle's graph) on both sides; value nodes of heap-hist cases are built with a new leaf object per null, the start document by one of the seven routes of heap_share.go"}})
@@ -365,7 +365,12 @@ func c03Run(c *Ctx) {
 }
 
 // c03Apply performs one builder call; returns fluent-identity problems.
-func c03Apply(cb dom.ContainerBuilder, op bOp) (fluent string) {
+func c03Apply(cb dom.ContainerBuilder, op bOp) (fluent string) { return c03ApplyH(cb, op, nil) }
+
+// c03ApplyH: a list operation goes through `kept` when the caller still holds the list of op.Path from an earlier
+// step (the ListBuilder AddList returned, or one looked up before), the way a program does that builds a document:
+// l := b.AddList("l"); …other edits…; l.Append(v).
+func c03ApplyH(cb dom.ContainerBuilder, op bOp, kept dom.Node) (fluent string) {
 	switch op.Op {
 	case "addvalue":
 		if cb.AddValue(op.Path, wireNode(op.V)) != cb {
@@ -396,7 +401,10 @@ func c03Apply(cb dom.ContainerBuilder, op bOp) (fluent string) {
 	case "compact":
 		cb.Walk(dom.CompactFn)
 	case "listset", "listappend", "listclear", "listmustset":
-		n := cb.Lookup(op.Path)
+		n := kept
+		if n == nil {
+			n = cb.Lookup(op.Path)
+		}
 		if n == nil || !n.IsList() {
 			return
 		}
@@ -470,6 +478,30 @@ func c03Eval(c *Ctx, kind string, raw []byte) {
 		return
 	}
 	prev := nodeWire(cb)
+	// kept: composite nodes of the document the caller holds on to, by the position at which they were obtained
+	// (looked up after the step that created them).  A step at or above a position — a write, an AddContainer /
+	// AddList, a removal there, Set on the item it sits in or below, Clear of a list it sits in — replaces or removes
+	// that node on the plain tree, and the entry is dropped; every other step leaves the node where it is, a write
+	// THROUGH it (a member or a slot below it, existing or created by padding) included.
+	kept := map[string]dom.Node{}
+	keep := func(cur W) {
+		var ps, lists, conts []string
+		wirePaths(cur, "", &ps, &lists)
+		wireContPaths(cur, "", &conts)
+		for _, q := range append(lists, conts...) {
+			if len(kept) >= 16 {
+				break
+			}
+			if _, has := kept[q]; !has {
+				guard(func() {
+					if n := cb.Lookup(q); n != nil && !n.IsLeaf() {
+						kept[q] = n
+					}
+				})
+			}
+		}
+	}
+	keep(prev)
 	for i, op := range h.Ops {
 		c.Dist("op:" + op.Op)
 		outside := op.Path != "" && !c03InDomainOf(prev, op.Path, op.Op != "removeat")
@@ -488,7 +520,11 @@ func c03Eval(c *Ctx, kind string, raw []byte) {
 		}
 		oldFlat := flatMap(flattenWire(cb))
 		var fluent string
-		o, t := guard(func() { fluent = c03Apply(cb, op) })
+		via := kept[op.Path]
+		if via != nil && strings.HasPrefix(op.Op, "list") {
+			c.Dist("list op through a kept ListBuilder")
+		}
+		o, t := guard(func() { fluent = c03ApplyH(cb, op, via) })
 		if !c.Direct("no-panic", o == "ok", map[string]any{"step": i, "op": op, "panic": t}) {
 			outcome = "panic"
 			h.Ops = h.Ops[:i+1]
@@ -591,6 +627,34 @@ func c03Eval(c *Ctx, kind string, raw []byte) {
 				c.Direct("list-mustset", good, det)
 			}
 		}
+		// the nodes the caller holds: dropped where the step wrote or removed at or above them, otherwise still the
+		// document's nodes at their positions (so that an edit through them is an edit of the document there)
+		for _, q := range sortedKeys(kept) {
+			gone := false
+			switch op.Op {
+			case "addvalue", "addvalueat", "addcontainer", "addlist", "remove", "removeat":
+				gone = pathUnder(q, op.Path)
+			case "listset", "listmustset":
+				gone = pathUnder(q, fmt.Sprintf("%s[%d]", op.Path, op.Idx))
+			case "listclear":
+				gone = strings.HasPrefix(q, op.Path+"[")
+			case "compact":
+				gone = true
+			}
+			if gone {
+				delete(kept, q)
+				continue
+			}
+			var now dom.Node
+			guard(func() { now = cb.Lookup(q) })
+			if now != kept[q] {
+				c.Direct("frame: a node obtained earlier (AddList / AddContainer / Lookup) is still the document's node at its position after a step that neither wrote nor removed at or above it (a write below it goes into it)",
+					false, map[string]any{"step": i, "op": op, "position": q, "before": prev, "after": cur, "held node now": nodeWire(kept[q]), "document there": nodeWire(now)})
+				// the caller does not know: it goes on using the node it holds (a later list operation through it is
+				// judged like any other: the document must show it)
+			}
+		}
+		keep(cur)
 		// lookup reads the plain tree: an index group addresses a list item, a name — digit-only or not — a member
 		for _, q := range c03LookupProbes(cur) {
 			if !c.Direct("lookup==lookup on the plain tree (only an index group addresses a list item; a digit-only name is a name)",
